@@ -1,14 +1,64 @@
-(* C36/Properties.v *)
+(* C36/Properties.v — property C36: chain state survives a crash at any write.
+   Only statements, each closed by `exact <lemma>`, with Print Assumptions beneath.
+
+   Reading guide.  [run_fixed sim0 ops] is the log of atomic write units (puts and whole
+   batches, in program order) that the scenario [ops] (imports with optional GRANDPA scheduled /
+   forced change digests, finalisations; operations that are not valid in the state they meet are
+   skipped) makes the dot/state services issue after genesis, together with the final block
+   table.  [replay db0 (firstn n ws)] is the database a crash after the n-th unit leaves.
+   [recover] is the restart path (Service.Start and the reads the property names). *)
 From Coq Require Import List NArith Bool.
 From C36 Require Import Model Proofs.
 Import ListNotations.
 Local Open Scope N_scope.
 
-(* the pinned tree wrote the new set id first: a crash after that write leaves a current set
-   without authorities *)
+(* For every scenario and every crash point n the restart succeeds, and compared with every
+   earlier crash point m the finalised (set id, round) and the GRANDPA set id are no older. *)
+Theorem C36_prefix_safe : forall (ops : list sop) (m n : nat),
+  (m <= n)%nat -> (n <= length (fst (run_fixed sim0 ops)))%nat ->
+  let bsF := s_blocks (snd (run_fixed sim0 ops)) in
+  let ws := fst (run_fixed sim0 ops) in
+  exists b r s g b0 r0 s0 g0,
+    recover bsF (replay db0 (firstn n ws)) = VOk b r s g /\
+    recover bsF (replay db0 (firstn m ws)) = VOk b0 r0 s0 g0 /\
+    le_rs r0 s0 r s = true /\ g0 <= g.
+Proof. exact prefix_safe. Qed.
+Print Assumptions C36_prefix_safe.
+
+(* A successful restart means: the finalised head recorded under the highest (round, set id) has
+   its header and body in the database, its state loads (the trie batches of the block and of
+   all its ancestors are there), and the current GRANDPA set id has its authority list and its
+   activation block. *)
+Theorem C36_ok_means : forall bs d b r s g, recover bs d = VOk b r s g ->
+  d KHrs = Some (VPair r s) /\ d (KFh r s) = Some (VBlk b) /\
+  has d (KHdr b) = true /\ has d (KBlb b) = true /\ state_ok bs d b = true /\
+  d KSetID = Some (VNum g) /\ has d (KAuth g) = true /\ has d (KChange g) = true.
+Proof. exact recover_ok_meaning. Qed.
+Print Assumptions C36_ok_means.
+
+(* the same in the executable form the driver evaluates on the verdicts of the REAL restarts *)
+Theorem C36_prefix_safe_bool : forall ops : list sop,
+  all_ok_monotone None
+    (crash_points (s_blocks (snd (run_fixed sim0 ops))) db0 (fst (run_fixed sim0 ops))) = true.
+Proof. exact prefix_safe_bool. Qed.
+Print Assumptions C36_prefix_safe_bool.
+
+(* The pinned tree wrote the new set id first (IncrementSetID, then the authorities, then the
+   activation block): a crash after the first of the three writes leaves a current set without
+   authorities. *)
 Theorem C36_prefix_order_refuted :
   exists ops, scenario_valid ops = true /\
-    let (ws, st) := run_prefix sim0 ops in
-    all_ok_monotone None (crash_points (s_blocks st) db0 ws) = false.
+    all_ok_monotone None
+      (crash_points (s_blocks (snd (run_prefix sim0 ops))) db0 (fst (run_prefix sim0 ops))) = false.
 Proof. exists [Imp 0 (DSched 0); Fin 1 1]. vm_compute. split; reflexivity. Qed.
 Print Assumptions C36_prefix_order_refuted.
+
+(* non-vacuity: a forked scenario with a forced and a scheduled change in which every operation
+   is valid; the head advances twice and the set id twice *)
+Example C36_nonvacuous :
+  let ops := [Imp 0 DNone; Imp 0 DNone; Imp 1 (DForced 1); Imp 3 DNone; Fin 3 1;
+              Imp 4 (DSched 0); Fin 5 2; Imp 5 DNone] in
+  scenario_valid ops = true /\
+  length (fst (run_fixed sim0 ops)) = 33%nat /\
+  recover (s_blocks (snd (run_fixed sim0 ops))) (replay db0 (fst (run_fixed sim0 ops))) = VOk 5 2 1 2.
+Proof. vm_compute. repeat split; reflexivity. Qed.
